@@ -64,6 +64,10 @@ def dec(e):
         return tuple(dec(x) for x in e[1])
     if t == 'l':
         return [dec(x) for x in e[1]]
+    if t == 'x':
+        return 'exception#%s' % e[1]
+    if t == '?':
+        return '<%s object>' % e[1]
     raise ValueError(e)
 
 
